@@ -232,6 +232,13 @@ class SymmetryTranslator:
                         if used_uneq_variables[index1] & used_uneq_variables[index2]:
                             g.add_edge(index1, index2)
                 for cc in nx.connected_components(g):
+                    if len(cc) > 1 and not self._consistent_exchange(
+                        [
+                            (potential_equalities[index], potential_strict_inequalities[index], potential_nstrict_inequalities[index])
+                            for index in cc
+                        ]
+                    ):
+                        continue
                     yield SymmetryTranslator.SymmetryBundle(
                         self.domain_predicates,
                         self.unique_names,
@@ -246,6 +253,23 @@ class SymmetryTranslator:
                         ],
                     )
                 return
+
+    @staticmethod
+    def _consistent_exchange(groups: list[tuple[set[AST], dict[int, list[AST]], dict[int, list[AST]]]]) -> bool:
+        """several groups that share compared variables can only be ordered if exchanging the atoms of one group exchanges
+        the atoms of the others as well, i.e. if every compared term has exactly one partner over all groups
+        (sudoku(X,Y,M), sudoku(A,B,M), c1(Y), c1(B): Y-B everywhere; but p(A), p(B), q(B), q(C): B is paired with A and C)"""
+        partner: dict[AST, AST] = {}
+        for literals, strict, nstrict in groups:
+            lits = sorted(literals)
+            if len(lits) != 2:
+                return False
+            for pos in set(strict) | set(nstrict):
+                lhs, rhs = lits[0].atom.symbol.arguments[pos], lits[1].atom.symbol.arguments[pos]
+                for one, other in ((lhs, rhs), (rhs, lhs)):
+                    if partner.setdefault(one, other) != other:
+                        return False
+        return True
 
     def largest_symmetric_group(
         self, body: list[AST], global_vars: set[AST], rest: list[AST], in_aggregate: bool
